@@ -89,3 +89,44 @@ func (r *Run) startStallDetector() {
 		}
 	}()
 }
+
+// deadlockBehindInconclusive: a run that is about to end inconclusive (requests that were never answered, aborted
+// histories) while goroutines of the module under test sit on a mutex gives them a minute: if they are still there
+// the run has found a deadlock, not a lack of evidence.
+func (r *Run) deadlockBehindInconclusive() {
+	r.mu.Lock()
+	inc, viol := len(r.inconcl), len(r.viols)
+	r.mu.Unlock()
+	if inc == 0 || viol > 0 {
+		return
+	}
+	take := func() string {
+		buf := make([]byte, 8<<20)
+		return string(buf[:runtime.Stack(buf, true)])
+	}
+	first := take()
+	waiting := false
+	for _, g := range strings.Split(first, "\n\n") {
+		head := strings.SplitN(g, "\n", 2)[0]
+		if (strings.Contains(head, "Mutex.Lock") || strings.Contains(head, "RWMutex") || strings.Contains(head, "semacquire")) &&
+			strings.Contains(g, "github.com/brutella/hc/") {
+			waiting = true
+		}
+	}
+	if !waiting {
+		return
+	}
+	time.Sleep(65 * time.Second)
+	dump := take()
+	bl := blockedInModule(dump, "github.com/brutella/hc")
+	if len(bl) == 0 {
+		return
+	}
+	site := bl[0][strings.LastIndex(bl[0], " in ")+4:]
+	site = strings.TrimPrefix(site, "github.com/brutella/hc/")
+	if len(dump) > 60000 {
+		dump = dump[:60000]
+	}
+	r.Violation("deadlock:"+site, fmt.Sprintf("requests went unanswered and %d goroutine(s) have been waiting on a mutex inside brutella/hc for more than a minute: %s", len(bl), strings.Join(bl, "; ")),
+		map[string]interface{}{"blocked": bl, "goroutine_dump": dump})
+}
